@@ -127,6 +127,16 @@ Theorem C04_upstream_line : forall addr_ok l, parse_line addr_ok l = LOk -> line
 Proof. exact parse_line_ok. Qed.
 Print Assumptions C04_upstream_line.
 
+(** ... and exactly those: the verdict "accepted" is characterised in both
+    directions (a record is refused, by error or panic, iff it is not valid). *)
+Theorem C04_upstream_line_iff : forall addr_ok l, parse_line addr_ok l = LOk <-> line_ok addr_ok l.
+Proof. exact parse_line_iff. Qed.
+Print Assumptions C04_upstream_line_iff.
+
+Theorem C04_validate_iff : forall cfg c, validate cfg c = EOk <-> valid_client cfg c.
+Proof. exact validate_iff. Qed.
+Print Assumptions C04_validate_iff.
+
 Theorem C04_validate_rejects_tag : forall cfg c t,
   In t (c_tags c) -> ~ In t (cfg_tags cfg) -> validate cfg c <> EOk.
 Proof. exact validate_rejects_tag. Qed.
